@@ -53,6 +53,19 @@ def collide_case(rng):
     return {"steps": steps, "env": gen.ENV}
 
 
+def pending_merge_case(rng):
+    """a sibling reference that reaches THROUGH a map whose own map-form $merge is expanded in place: whether the
+    sibling sees the expanded map depends on the order the entries are walked in (sorted in the real code)"""
+    names = rng.sample(["alpha", "base", "mid", "probe", "zeta", "k1", "k2"], 3)
+    b, m, p = names
+    d = {b: {"z": 2, "y": {"w": 1}}, m: {"$merge": b, "q": 1}}
+    d[p] = rng.choice(["$merge:%s.z" % m, "$replace:%s.y" % m, {"$merge": "%s.y" % m}, "$\"{%s.z}\"" % m])
+    if rng.random() < 0.4:
+        d["other"] = {"$merge": m}
+    steps = [{"merge": {"id": "D0", "parents": [], "data": d}}, {"outdocs": True}, {"out": "json"}]
+    return {"steps": steps, "env": gen.ENV}
+
+
 def retained_case(rng):
     """several Output calls of different content (and formats) in one process: bytes handed out earlier must not
     change (a writer that recycles its buffer breaks byte-identity for a caller who kept the result)"""
@@ -68,6 +81,8 @@ def gen_case(rng):
     if r0 < 0.05:
         return retained_case(rng)
     if r0 < 0.1:
+        return pending_merge_case(rng)
+    if r0 < 0.15:
         c = collide_case(rng)
     elif r0 < 0.3:
         c = manykey_case(rng)
